@@ -1663,8 +1663,23 @@ class FlowProposal(RejectionProposal):
 
         # Flow might have exited before any weights were saved.
         if weights_file is not None:
+            # If the run was killed whilst the weights were being saved, the
+            # weights file can be missing or incomplete. The previous weights
+            # are kept in `<weights_file>.old`, so fall back to those.
+            old_weights_file = weights_file + ".old"
             if os.path.exists(weights_file):
-                self.flow.reload_weights(weights_file)
+                try:
+                    self.flow.reload_weights(weights_file)
+                except (RuntimeError, EOFError, OSError) as e:
+                    if not os.path.exists(old_weights_file):
+                        raise
+                    logger.warning(
+                        f"Could not load weights from {weights_file} ({e}), "
+                        f"loading {old_weights_file} instead"
+                    )
+                    self.flow.reload_weights(old_weights_file)
+            elif os.path.exists(old_weights_file):
+                self.flow.reload_weights(old_weights_file)
         else:
             logger.warning("Could not reload weights for flow")
 
